@@ -37,15 +37,18 @@ Proof. intros H1 H2. unfold pstep. rewrite H1, H2. reflexivity. Qed.
 Lemma pstep_shift f s top v ty id :
   peek (stack s) 0 = Some top ->
   find (t_actions tb) (i_state top) (la s) = FFound v ->
-  v <> accept_code -> (0 <= v)%Z -> lasym s = VTok ty id ->
+  v <> accept_code -> (0 <= v)%Z -> lasym s = VTok ty id -> la s <> ERROR ->
   exists b,
     pstep tb eb false discard f s =
-    match read_token tb (set_stack s ({| i_state := v; i_sym := lasym s; i_bounds := b |} :: stack s)) with
+    match read_token tb
+            (set_shifts (set_stack s ({| i_state := v; i_sym := lasym s; i_bounds := b |} :: stack s))
+                        (shifts s + 1) (rec_shifts s)) with
     | None => Crash
     | Some s2 => Continue s2
     end.
 Proof.
-  intros H1 H2 Hna Hv Hl. unfold pstep. rewrite H1, H2.
+  intros H1 H2 Hna Hv Hl Hne. unfold pstep. rewrite H1, H2.
+  assert (En : (la s =? ERROR)%Z = false) by (apply Z.eqb_neq; exact Hne). rewrite En.
   destruct (v =? accept_code)%Z eqn:E; [apply Z.eqb_eq in E; contradiction|].
   rewrite Z.geb_leb. destruct (0 <=? v)%Z eqn:E2; [|apply Z.leb_gt in E2; lia].
   destruct eb.
@@ -316,6 +319,12 @@ Proof.
   - inversion Hord; subst. repeat split; eauto. lia.
 Qed.
 
+Lemma la_rel_noerr inp s : la_rel inp s -> la s <> ERROR.
+Proof.
+  intros (i & l & Hinp & Hlen & Hord & Hla & _). rewrite Hla. unfold ERROR.
+  destruct l as [|t l]; simpl; [lia|]. inversion Hord; subst. lia.
+Qed.
+
 (* ---------- the simulation ---------- *)
 Theorem sim_step f stk inp tr s :
   R stk inp tr s ->
@@ -343,9 +352,10 @@ Proof.
       destruct (0 <=? v)%Z eqn:E2.
       * (* shift *)
         apply Z.leb_le in E2. inversion Hjust as [s' Hne Hs' Hpast| |]; subst.
-        destruct (pstep_shift tb eb discard f s top v _ _ Hpk Hf E E2 Hsym) as (b & Hps).
+        destruct (pstep_shift tb eb discard f s top v _ _ Hpk Hf E E2 Hsym (la_rel_noerr _ _ Hla))
+          as (b & Hps).
         rewrite Hps.
-        set (s1 := set_stack s _) in *.
+        set (s1 := set_shifts _ _ _) in *.
         destruct Hla as (i & l & Hinp & Hla').
         destruct l as [|t l].
         -- (* shifting the EOF token: excluded by the validator *)
